@@ -27,6 +27,10 @@ def main():
     r2 = {r["id"]: r for r in load("results_r2.jsonl")}
     r3 = {r["id"]: r for r in load("results_r3.jsonl")}
     r4 = {r["id"]: r for r in load("results_r4.jsonl")}
+    # fifth pass: the server.rs / server-main mutants again, after the event loop was translated and bridged and a false alarm
+    # of the C15 rig under concurrent runs (which had "caught" eight property-equivalent mutants in the fourth pass) was removed
+    r5 = {r["id"]: r for r in load("results_r5.jsonl")}
+    r4.update(r5)
     muts = {}
     for f in ("mutants.jsonl", "mutants_r2.jsonl", "mutants_r3.jsonl"):
         for m in load(f): muts[m["id"]] = m
@@ -58,7 +62,8 @@ def main():
     f4 = [i for i in p3_missed if r4.get(i, {}).get("status") == "caught"]
     out.append(f"Third pass: {len(p3_missed)} missed or harness-error (triaged below). Fourth pass, after closing the gaps the triage showed (grease.rs and "
                f"reporter.rs translated and bridged, recorder totals in the event-loop stream, the real binary started for refused configurations, a harness "
-               f"panic treated as a broken correspondence): {len(f4)} of those are now caught"
+               f"panic treated as a broken correspondence; fifth pass for server.rs / the server's main after process_events was translated and bridged and after a "
+               f"false alarm of the C15 rig under concurrent runs was removed): {len(f4)} of those are now caught"
                f"{' (fourth pass not yet complete: ' + str(len(r4)) + ' of ' + str(len(p3_missed)) + ' re-run)' if len(r4) < len(p3_missed) else ''}.\n")
     # per file
     out.append("## Per file (mutants that compile and pass the tests)\n")
